@@ -216,7 +216,7 @@ def info(number, separator=''):
             idx = number.find(separator)
             if idx > 0:
                 value = number[:idx]
-        elif not info.get('fnc1', False) and len(value) < _max_length(info['format'], info['type']):
+        elif not info.get('fnc1', False) and len(value.strip()) < _max_length(info['format'], info['type']):
             # values of application identifiers with a predefined length cannot be shorter
             raise InvalidLength()
         number = number[len(value):]
